@@ -409,6 +409,12 @@ func (c *clientFile) readAt(p []byte, offset int64) (int, error) {
 		return 0, err
 	}
 
+	// A reply cannot carry more than was asked for; a peer that sends one
+	// must not make us report a count beyond the caller's buffer.
+	if len(rread.Data) > len(p) {
+		return 0, ErrNoValidMessage
+	}
+
 	// The message may have been truncated, or for some reason a new buffer
 	// allocated. This isn't the common path, but we make sure that if the
 	// payload has changed we copy it. See transport.go for more information.
@@ -438,6 +444,11 @@ func (c *clientFile) writeAt(p []byte, offset int64) (int, error) {
 	rwrite := rwrite{}
 	if err := c.client.sendRecv(&twrite{fid: c.fid, Offset: uint64(offset), Data: p}, &rwrite); err != nil {
 		return 0, err
+	}
+
+	// Nor can more have been written than was sent.
+	if uint64(rwrite.Count) > uint64(len(p)) {
+		return 0, ErrNoValidMessage
 	}
 
 	return int(rwrite.Count), nil
